@@ -182,39 +182,76 @@ def e3_build(tier, config, sd=None):
     import re
     target, release, features = E3_CONFIGS[config]
     excluded = {}
-    for _round in range(4):
+    for _round in range(12):
         d = e3_generate(tier, excluded.keys(), sd)
         try:
             exe = cargo_build("e3_gencrate", target_dir=target, release=release, features=features, extra_env={"VERIF_GEN_DIR": d})
             return exe, d, excluded
         except Inconclusive as e:
             msg = str(e)
+            blocks = re.split(r"\n(?=error)", msg)
             bad_def = set(int(k) for k in re.findall(r"def_(\d+)\.rs", msg))
             bad_glue = set(int(k) for k in re.findall(r"glue_(\d+)\.rs", msg))
             new = (bad_def | bad_glue) - set(excluded)
             if not new:
                 raise
             for k in new:
-                excluded[k] = ("def" if k in bad_def else "glue", msg[-1500:])
-    raise Inconclusive("generated modules keep failing to compile: %s" % sorted(excluded))
+                mine = [b for b in blocks if re.search(r"(def|glue)_%d\.rs" % k, b)]
+                excluded[k] = ("def" if k in bad_def else "glue", (mine[0] if mine else msg)[:1500])
+    return None, d, excluded
 
 
 def e3_part(prop_arg, config, cases):
     def f(tier):
+        import re
         exe, d, excluded = e3_build(tier, config)
-        if len(excluded) > E3_DEFS[tier] // 4:
-            raise Inconclusive("%d of %d generated modules do not compile (see C13): %s" % (len(excluded), E3_DEFS[tier], sorted(excluded)))
         os.makedirs(WORK, exist_ok=True)
         out = os.path.join(WORK, "e3_%s_%s_%s.json" % (prop_arg, config, os.getpid()))
         salt = {"A": 0, "B": 0xB0B, "C": 0xC0C}[config]
-        r = run_engine([exe, "run", prop_arg, str(cases[tier]), out], out, "e3_gencrate(%s) run %s" % (config, prop_arg),
-                       extra_env={"VERIF_SEED": str(seed() ^ salt)})
+        if exe is None or len(excluded) > E3_DEFS[tier] // 2:
+            # too many generated modules (or their adapters) do not compile to run anything
+            r = {"evaluations": len(excluded), "nontrivial": 0, "distinct_nontrivial": 0, "samples": [], "classes": {}, "counters": {}, "failures": [],
+                 "rule": "no sequence was run: %d of %d generated modules or their adapters do not compile" % (len(excluded), E3_DEFS[tier])}
+        else:
+            r = run_engine([exe, "run", prop_arg, str(cases[tier]), out], out, "e3_gencrate(%s) run %s" % (config, prop_arg),
+                           extra_env={"VERIF_SEED": str(seed() ^ salt)})
         r.setdefault("property", prop_arg)
         r["part"] = "e3:%s:%s" % (prop_arg, {"A": "debug+hooks", "B": "release", "C": "release+hooks"}[config])
         r["replay_engine"] = "e3-" + config
         r["replay_extra"] = {"gen_seed": seed(), "run_seed": seed() ^ salt, "tier_defs": E3_DEFS[tier], "config": config}
         if excluded:
             r.setdefault("notes", []).append("generated modules excluded because they do not compile: %s" % sorted(excluded))
+            # The glue is generated from the definition (names, types, ids) and compiles for the same
+            # histories on a tree where the generated interface matches the definition.  When the
+            # generated module compiles alone but the glue does not, the generated interface lacks or
+            # mistypes something the definition has: attributed by what the compiler names.
+            for k, (kind, text) in sorted(excluded.items()):
+                if kind != "glue":
+                    continue
+                if re.search(r"UnpackedRecordIn|UnpackedUninitRecordIn|AndUnpackedOut|conv_\d", text):
+                    owner = "C05"
+                elif re.search(r"[Cc]lone", text):
+                    owner = "C16"
+                elif re.search(r"serde|Serialize|Deserialize|bincode", text):
+                    owner = "C15"
+                else:
+                    owner = "C04"
+                if owner == prop_arg:
+                    hist = None
+                    try:
+                        hist = json.load(open(os.path.join(d, "hist_%d.json" % k)))
+                    except Exception:
+                        pass
+                    if len([x for x in r.get("failures", []) if x.get("signature") == "generated-interface-mismatch"]) >= 2:
+                        continue
+                    r.setdefault("failures", []).append({
+                        "signature": "generated-interface-mismatch",
+                        "message": "definition #%d: truc's generated module compiles, but the adapter written from the definition (names, types, added / removed data per variant) does not fit its interface: %s" % (k, text[:700]),
+                        "case": {"definition_history": hist, "definition_index": k},
+                    })
+        if (exe is None or len(excluded) > E3_DEFS[tier] // 2) and not r.get("failures"):
+            raise Inconclusive("%d of %d generated modules or adapters do not compile and none of the errors concerns %s: %s"
+                               % (len(excluded), E3_DEFS[tier], prop_arg, sorted(excluded)))
         return r
     return f
 
@@ -285,6 +322,68 @@ def e3_parts(prop_arg, configs, cases):
     return [e3_part(prop_arg, c, cases) for c in configs]
 
 
+def fuzz_part(target, prop_arg, runs, max_len=256):
+    """Thorough tier only: coverage-guided libFuzzer campaign (cargo-fuzz, ASan) with the property's
+    oracle inside the target. The saved failing input is the reproducible unit."""
+    def f(tier):
+        import random, re, shutil
+        if runs.get(tier, 0) <= 0:
+            return None
+        fdir = os.path.join(ENGINE, "fuzz")
+        rc, out = run(["cargo", "+nightly", "fuzz", "build", target], cwd=fdir, timeout=3000)
+        if rc != 0:
+            raise Inconclusive("cargo fuzz build failed:\n%s" % out[-3000:])
+        base = os.path.join(WORK, "fz", "%s-%s-%s" % (target, prop_arg, os.getpid()))
+        shutil.rmtree(base, ignore_errors=True)
+        corpus = os.path.join(base, "corpus")
+        art = os.path.join(base, "art")
+        os.makedirs(corpus)
+        os.makedirs(art)
+        rng = random.Random(seed() * 7919 + 13)
+        for i in range(32):
+            with open(os.path.join(corpus, "seed%02d" % i), "wb") as fh:
+                fh.write(bytes(rng.randrange(256) for _ in range(rng.randrange(8, max_len))))
+        cmd = ["cargo", "+nightly", "fuzz", "run", target, corpus, "--", "-runs=%d" % runs[tier], "-seed=%d" % (seed() % 2**31 or 1),
+               "-max_len=%d" % max_len, "-len_control=0", "-print_final_stats=1", "-artifact_prefix=" + art + "/"]
+        rc, log = run(cmd, cwd=fdir, timeout=6 * 3600, extra_env={"VERIF_FUZZ_PROP": prop_arg})
+        stats = dict(re.findall(r"stat::(\w+):\s+(\d+)", log))
+        cov = re.findall(r"cov: (\d+) ft: (\d+) corp: (\d+)", log)
+        r = {
+            "part": "fuzz:%s:%s" % (target, prop_arg), "property": prop_arg,
+            "replay_engine": "e1" if target == "layout" else "e4",
+            "evaluations": int(stats.get("number_of_executed_units", 0)),
+            "nontrivial": 0, "distinct_nontrivial": 0, "distinct_nontrivial_random": 0,
+            "rule": ("libFuzzer (cargo-fuzz, AddressSanitizer) over a total byte decoder of the same case grammar, oracle of %s inside the target, "
+                     "-seed=%d -runs=%d -max_len=%d -len_control=0, corpus = 32 random byte strings; non-trivial cases are not counted inside the target (reported as 0)"
+                     % (prop_arg, seed(), runs[tier], max_len)),
+            "samples": [], "classes": {},
+            "counters": {"fuzz_runs": int(stats.get("number_of_executed_units", 0)), "fuzz_new_units": int(stats.get("new_units_added", 0)),
+                         "fuzz_cov": int(cov[-1][0]) if cov else 0, "fuzz_features": int(cov[-1][1]) if cov else 0, "fuzz_corpus": int(cov[-1][2]) if cov else 0},
+            "failures": [],
+        }
+        if rc != 0:
+            m = re.search(r"FUZZ-FAILURE (\{.*\})", log)
+            if m:
+                fj = json.loads(m.group(1))
+                r["failures"].append({"signature": fj.get("signature"), "message": fj.get("message"), "case": fj.get("case")})
+            elif "ERROR: AddressSanitizer" in log or "ERROR: libFuzzer: deadly signal" in log:
+                line = [l for l in log.splitlines() if "ERROR:" in l][:1]
+                arts = sorted(os.listdir(art))
+                kept = None
+                if arts:
+                    os.makedirs(REPLAYS, exist_ok=True)
+                    kept = os.path.join(REPLAYS, "%s-fuzz-%s" % (prop_arg, arts[0]))
+                    shutil.copy(os.path.join(art, arts[0]), kept)
+                r["failures"].append({"signature": "sanitizer", "message": "%s (input saved as %s; replay: cd engine/fuzz && VERIF_FUZZ_PROP=%s cargo +nightly fuzz run %s <file>)"
+                                      % (line[0] if line else "crash", kept, prop_arg, target), "case": {"fuzz_artifact": kept, "target": target}})
+            else:
+                shutil.rmtree(base, ignore_errors=True)
+                raise Inconclusive("fuzz run failed (rc %s):\n%s" % (rc, log[-2000:]))
+        shutil.rmtree(base, ignore_errors=True)
+        return r
+    return f
+
+
 def e5_part(prop_arg, n):
     def f(tier):
         exe = cargo_build("e5_probes")
@@ -302,21 +401,21 @@ def e5_part(prop_arg, n):
 
 
 PROPERTIES = {
-    "C01": dict(level="exploration", parts=[e1_part("C01", dict(quick=100000, thorough=2000000))]),
-    "C02": dict(level="exploration", parts=[e1_part("C02", dict(quick=100000, thorough=2000000))] + e3_parts("C02", "B", dict(quick=20000, thorough=200000))),
-    "C03": dict(level="exploration", parts=[e1_part("C03", dict(quick=100000, thorough=2000000))] + e3_parts("C03", "B", dict(quick=100000, thorough=1500000)) + [e5_part("C03", dict(quick=400, thorough=6000))]),
+    "C01": dict(level="exploration", parts=[e1_part("C01", dict(quick=100000, thorough=2000000))] + [fuzz_part("layout", "C01", dict(quick=0, thorough=250000), 256)]),
+    "C02": dict(level="exploration", parts=[e1_part("C02", dict(quick=100000, thorough=2000000))] + e3_parts("C02", "B", dict(quick=20000, thorough=200000)) + [fuzz_part("layout", "C02", dict(quick=0, thorough=250000), 256)]),
+    "C03": dict(level="exploration", parts=[e1_part("C03", dict(quick=100000, thorough=2000000))] + e3_parts("C03", "B", dict(quick=100000, thorough=1500000)) + [e5_part("C03", dict(quick=400, thorough=6000))] + [fuzz_part("layout", "C03", dict(quick=0, thorough=250000), 256)]),
     "C04": dict(level="exploration", parts=e3_parts("C04", "AB", dict(quick=150000, thorough=2500000))),
     "C05": dict(level="exploration", parts=e3_parts("C05", "AB", dict(quick=150000, thorough=2500000))),
     "C06": dict(level="exploration", parts=e3_parts("C06", "AB", dict(quick=150000, thorough=2500000))),
     "C07": dict(level="exploration", parts=e3_parts("C07", "AC", dict(quick=150000, thorough=2500000)) + [e3_miri_part("C07", dict(quick=30, thorough=400))]),
     "C15": dict(level="exploration", parts=e3_parts("C15", "AB", dict(quick=150000, thorough=2500000))),
     "C16": dict(level="exploration", parts=e3_parts("C16", "AB", dict(quick=150000, thorough=2500000))),
-    "C08": dict(level="exploration", parts=e4_parts("C08", dict(quick=60000, thorough=1500000), dict(quick=8, thorough=12))),
-    "C09": dict(level="fault_enumeration", parts=e4_parts("C09", dict(quick=60000, thorough=1500000), dict(quick=8, thorough=11))),
-    "C10": dict(level="exploration", parts=e4_parts("C10", dict(quick=40000, thorough=600000), dict(quick=12, thorough=40))),
-    "C12": dict(level="exploration", parts=[e1_part("C12", dict(quick=100000, thorough=2000000))]),
+    "C08": dict(level="exploration", parts=e4_parts("C08", dict(quick=60000, thorough=1500000), dict(quick=8, thorough=12)) + [fuzz_part("vecconv", "C08", dict(quick=0, thorough=600000), 128)]),
+    "C09": dict(level="fault_enumeration", parts=e4_parts("C09", dict(quick=60000, thorough=1500000), dict(quick=8, thorough=11)) + [fuzz_part("vecconv", "C09", dict(quick=0, thorough=600000), 128)]),
+    "C10": dict(level="exploration", parts=e4_parts("C10", dict(quick=40000, thorough=600000), dict(quick=12, thorough=40)) + [fuzz_part("vecconv", "C10", dict(quick=0, thorough=600000), 128)]),
+    "C12": dict(level="exploration", parts=[e1_part("C12", dict(quick=100000, thorough=2000000))] + [fuzz_part("layout", "C12", dict(quick=0, thorough=250000), 256)]),
     "C11": dict(level="exploration", parts=[e5_part("C11", dict(quick=400, thorough=6000))]),
-    "C13": dict(level="exploration", parts=[e1_part("C13", dict(quick=30000, thorough=500000)), e5_part("C13", dict(quick=120, thorough=1500))]),
+    "C13": dict(level="exploration", parts=[e1_part("C13", dict(quick=30000, thorough=500000)), e5_part("C13", dict(quick=120, thorough=1500))] + [fuzz_part("layout", "C13", dict(quick=0, thorough=250000), 256)]),
     "C14": dict(level="exploration", parts=[e5_part("C14", dict(quick=150, thorough=1500))]),
     "C17": dict(level="exploration", parts=[e5_part("C17", dict(quick=1500, thorough=20000))]),
     "C18": dict(level="exploration", parts=[e1_part("C18", dict(quick=40000, thorough=600000))]),
@@ -324,7 +423,7 @@ PROPERTIES = {
         e1_part("C19", dict(quick=6000, thorough=100000)),
         e1_part("C19x", dict(quick=300, thorough=6000)),
     ]),
-    "C20": dict(level="exploration", parts=[e1_part("C20", dict(quick=60000, thorough=1000000))]),
+    "C20": dict(level="exploration", parts=[e1_part("C20", dict(quick=60000, thorough=1000000))] + [fuzz_part("layout", "C20", dict(quick=0, thorough=250000), 256)]),
 }
 
 
@@ -410,6 +509,17 @@ def replay(prop, path):
             extra = data.get("replay_extra", {})
             tier = "thorough" if extra.get("tier_defs") == E3_DEFS["thorough"] else "quick"
             exe, d, excluded = e3_build(tier, engine[3:], sd=extra.get("gen_seed", data.get("seed", 1)))
+            if data.get("signature") == "generated-interface-mismatch":
+                k = (data.get("case") or {}).get("definition_index")
+                if k in excluded and excluded[k][0] == "glue":
+                    print("definition #%s: the adapter written from the definition does not fit the generated interface:\n%s" % (k, excluded[k][1][:800]))
+                    print("VIOLATION property=%s replay=%s" % (prop, path))
+                    return 1
+                print("replay: the adapter of definition #%s compiles against the generated module" % k)
+                return 0
+            if exe is None:
+                print("INCONCLUSIVE: the generated batch does not compile")
+                return 2
             rc, out = run([exe, "replay", data.get("replay_property", prop), path], timeout=600)
             print(out, end="")
             if rc == 1:
@@ -440,7 +550,9 @@ def run_check(prop, tier):
     part_errors = []
     for part in spec["parts"]:
         try:
-            results.append(part(tier))
+            res = part(tier)
+            if res is not None:
+                results.append(res)
         except Inconclusive as e:
             part_errors.append(str(e))
     if not results:
